@@ -505,6 +505,11 @@ where
             .choose_down_members(num_members, &mut self.choice_buf, &mut self.rng);
 
         while let Some(chosen) = self.choice_buf.pop() {
+            // Down members may include previous identities of this very
+            // instance: never announce to our own address
+            if chosen.id().addr() == self.identity.addr() {
+                continue;
+            }
             self.send_message(chosen.into_identity(), Message::Announce, &mut runtime)?;
         }
 
